@@ -178,7 +178,7 @@ def rand_ast(rng, H, depth):
         else:
             # the visitor dereferences names[i].name and items[i].context_expr: keep those slots typed
             def sub():
-                if kind == "Import" and f == "names":
+                if kind in ("Import", "ImportFrom") and f == "names":
                     a = ast.alias()
                     a.name, a.asname = rand_module(rng, H), None
                     return a
@@ -208,6 +208,8 @@ def impl_visit(H, tree, allow_print=True):
         raised = "IndexError"
     except RecursionError:
         raised = "RecursionError"
+    except (AttributeError, TypeError) as e:
+        raised = "schema:" + type(e).__name__   # a hand-built tree the visitor's own field accesses reject
     return [(v.kind, v.detail) for v in an.violations], raised
 
 
@@ -715,7 +717,8 @@ def run(tier, seed, replay=None):
                 t = rand_ast(rng, H, rng.randint(1, 4))
                 ap = rng.random() < 0.7
                 il, raised = impl_visit(H, t, ap)
-                if raised == "RecursionError":
+                if raised == "RecursionError" or (raised or "").startswith("schema:"):
+                    out.count("malformed_tree", raised)
                     continue
                 d = dump(t)
                 rec = len(xcheck) < 26 and i % 37 == 5 and len(json.dumps(d)) < 900
@@ -767,7 +770,12 @@ def run(tier, seed, replay=None):
                 mv_n = model.call(["py_classify", [], decoy, toks], oracles)
                 if mv_n != impl_n:
                     out.disagreements.append({"correspondence": "PyArgs.classify <-> python.classify (ctx.cwd None)", "tokens": toks, "model": mv_n, "impl": impl_n})
-            if idx % 3 == 0:
+            if idx % 3 == 0 and not (hasattr(H, "_own_options") and hasattr(H, "_find_script_path")):
+                if not out.extra.get("helpers_missing"):
+                    out.extra["helpers_missing"] = True
+                    out.disagreements.append({"correspondence": "PyArgs.own_tail/find_script_at <-> _own_options/_find_script_path",
+                                              "detail": "the handler no longer defines these functions"})
+            elif idx % 3 == 0:
                 own_i = H._own_options(list(toks))[1:]
                 own_m = model.call(["py_own", toks[1:]])
                 pi, ii = H._find_script_path(list(toks), Path(work))
@@ -919,6 +927,9 @@ def run(tier, seed, replay=None):
         model.close()
         scratch.close()
 
+    if os.environ.get("C17_DUMP"):
+        with open(os.environ["C17_DUMP"], "w") as f:
+            json.dump(out.violations, f, indent=1)
     n, mism = core.coq_crosscheck("C17", xcheck)
     out.extra["coq_vm_crosscheck"] = {"cases": n, "mismatches": len(mism)}
     if mism:
